@@ -186,6 +186,31 @@ def run(prog, chk):
             chk.ok("C15.e", pv, "parseValue handles all %d value token kinds" % len(kinds), "%s:%s" % (pv.file, pv.line), "case labels vs tokenizer", evals=len(kinds))
     else:
         chk.bad("C15.e", pv, "parser-switch-missing", "%s:%s" % (pv.file, pv.line), "parseValue does not switch on the token kind")
+    # ------------------------------------------------------------------ g: numeric token conversion
+    chk.rule("C15.g", "WHO/DOM: the number token's text is converted only with the 64-bit / double conversions; an int is stored into the token value only "
+                      "under the test that the narrowed value equals the 64-bit one", floor=2)
+    conv = [c for c in q.calls(rt) if re.match(r"^String::to(Int|UInt|Int64|UInt64|Double|Bool)$", rt.nodes[c].get("callee", ""))]
+    narrow = [c for c in conv if rt.nodes[c]["callee"] in ("String::toInt", "String::toUInt", "String::toBool")]
+    if narrow:
+        chk.bad("C15.g", rt, "number-parsed-with-32-bit-conversion", rt.where(narrow[0]),
+                "the number token is converted with %s: integers outside the 32-bit range are silently truncated (2147483648 re-parses as -2147483648)" % rt.nodes[narrow[0]]["callee"])
+    elif conv:
+        chk.ok("C15.g", rt, "number text converted with %s only" % sorted(set(rt.nodes[c]["callee"].split("::")[-1] for c in conv)), rt.where(conv[0]), "who-may-call over the tokenizer", evals=len(conv))
+    else:
+        chk.bad("C15.g", rt, "number-conversion-missing", "%s:%s" % (rt.file, rt.line), "readToken no longer converts number tokens")
+    ints = []
+    for st_ in q.stores(rt):
+        if q.no_casts(rt.r(st_.lhs)) == "this->token.value" and st_.rhs is not None:
+            rn = rt.nodes[rt.strip(st_.rhs)]
+            if rn.get("t") == "int" or (rn["k"] == "DeclRefExpr" and rn["ref"].get("t") == "int"):
+                ints.append(st_)
+    for st_ in ints:
+        atoms = fin.dominating_atoms(rt, rt.node_pos(st_.node))
+        okfit = any(a[0] != "case" and a[1] and re.search(r"\(resultInt == result\)|\(result == resultInt\)", q.no_casts(fin.key(rt, a[0]))) for a in atoms)
+        if okfit:
+            chk.ok("C15.g", rt, "int stored only when it equals the parsed 64-bit value", rt.where(st_.node), "dominating fit test", evals=2)
+        else:
+            chk.bad("C15.g", rt, "int-stored-without-fit-test", rt.where(st_.node), "`%s` stores a 32-bit value without the dominating test that it equals the 64-bit value parsed from the text" % rt.r(st_.node)[:60])
     # ------------------------------------------------------------------ f
     # every `*(dest++) = ...` consumes a source byte: right side reads `*(src++)` or `*(end++)`
     wr = [s for s in q.stores(sc) if re.match(r"^\*dest\+\+$", q.no_casts(sc.r(s.lhs)))]
